@@ -14,4 +14,13 @@ LEAVES = [
     # tau = min(1., max(-1., tau))
     dict(name='tauClamp', file='rdm/compare.py', func='_tau_a', kind='assign', target='tau',
          nth=1, count=2, params={'tau': 'A'}, ret='A'),
+    # sim = np.einsum('ij,kj->ik', vector1, vector2) / (n ** 3 - n) * 12   (rho-a constant)
+    dict(name='rhoAScale', file='rdm/compare.py', func='compare_rho_a', kind='assign', target='sim',
+         count=1, params={'inner': 'A', 'n': 'A'}, ret='A',
+         opaque={"np.einsum('ij,kj->ik', vector1, vector2)": 'inner'}),
+    # linear-CKA fast path: mm = np.sum(vector_w * 2, ...) / (n_cond * n_cond)
+    # (`m = vector_w @ sumI / n_cond` is a matrix product, not a call: cannot be made opaque)
+    dict(name='ckaGrandMean', file='rdm/compare.py', func='_cov_weighting', kind='assign', target='mm',
+         count=1, params={'total2': 'A', 'n_cond': 'A'}, ret='A',
+         opaque={"np.sum(vector_w * 2, axis=1, keepdims=True)": 'total2'}),
 ]
